@@ -66,19 +66,10 @@ func c08Executor() *kmipserver.BatchExecutor {
 			return nil, kmipserver.Errorf(kmip.ResultReasonItemNotFound, "not found")
 		case o == "plain":
 			return nil, errors.New("plain failure")
+		case strings.HasPrefix(o, "plain:"):
+			return nil, plainError(o[6:])
 		case strings.HasPrefix(o, "panic:"):
-			switch o[6:] {
-			case "error":
-				panic(errors.New("boom"))
-			case "int":
-				panic(42)
-			case "stringer":
-				panic(stringer{"boom"})
-			case "nil":
-				panic(nil)
-			default:
-				panic("boom")
-			}
+			panicWith(o[6:])
 		case strings.HasPrefix(o, "slow:"):
 			var ms int
 			var honour bool
@@ -722,9 +713,13 @@ func drawOutcomes(rt *rapid.T) []string {
 		case 0:
 			out = append(out, "typed")
 		case 1:
-			out = append(out, "plain")
+			if k := rapid.SampledFrom(plainErrorKinds).Draw(rt, "plainerr"); k != "" {
+				out = append(out, "plain:"+k)
+			} else {
+				out = append(out, "plain")
+			}
 		case 2:
-			out = append(out, "panic:"+rapid.SampledFrom([]string{"string", "error", "int", "stringer", "nil"}).Draw(rt, "panicval"))
+			out = append(out, "panic:"+rapid.SampledFrom(panicKinds).Draw(rt, "panicval"))
 		case 3:
 			out = append(out, fmt.Sprintf("slow:%d:%t", rapid.SampledFrom([]int{1, 50, 1000}).Draw(rt, "ms"), rapid.Bool().Draw(rt, "honour")))
 		case 4:
@@ -838,7 +833,7 @@ func c08NonTrivial(c c08Case) bool {
 
 func TestC08Availability(t *testing.T) {
 	const name = "TestC08Availability"
-	rec := evid.New("C08", name, "state-machine scripts over 1..4+ client connections (some refused by the server's connect hook) to a real kmipserver.Server on an in-memory listener inside a testing/synctest bubble (fake clock, quiescence detection): connect, whole request (1..3 items with outcomes ok / typed error / plain error / panic with string|error|int|Stringer|nil / slow honouring or ignoring its context), "+
+	rec := evid.New("C08", name, "state-machine scripts over 1..4+ client connections (some refused by the server's connect hook) to a real kmipserver.Server on an in-memory listener inside a testing/synctest bubble (fake clock, quiescence detection): connect, whole request (1..3 items with outcomes ok / typed error / plain error (errors.New, a nil pointer in an error interface, an error whose Error method panics) / panic with string|error|int|Stringer|nil|slice|map|func|slice-typed error|struct holding a slice|pointer|NaN|run-time error|an error or Stringer whose method panics, a nil pointer in an error interface / slow honouring or ignoring its context), "+
 		"pipelined requests, partial message + completion, garbage (random bytes, oversize announcement, nonsense frame, truncated request), correctly framed but undecodable message (9 kinds), half close, close (also while a handler or a response write is in progress), stalled reader, and closing exactly when the response is about to be handed to the write loop (yield-point hook); "+
 		"after every step: responses match the model one-to-one and in order, census of accept/handleConn/readloop/writeloop goroutines never exceeds the number of live connections (per loop kind), a probe connection is served; at the end nothing remains; "+
 		"non-trivial = >= 2 connections and >= 1 fault; distinct by script").Attach(t)
